@@ -96,17 +96,16 @@ func (q *queryServer) QueryPlansForProvider(c context.Context, req *types.QueryP
 	)
 
 	pagination, err := query.FilteredPaginate(store, req.Pagination, func(key, _ []byte, accumulate bool) (bool, error) {
-		if !accumulate {
-			return false, nil
-		}
-
 		item, found := q.GetPlan(ctx, sdk.BigEndianToUint64(key))
 		if !found {
 			return false, fmt.Errorf("plan for key %X does not exist", key)
 		}
 
 		if req.Status.Equal(hubtypes.StatusUnspecified) || item.Status.Equal(req.Status) {
-			items = append(items, item)
+			if accumulate {
+				items = append(items, item)
+			}
+
 			return true, nil
 		}
 
